@@ -273,6 +273,8 @@ class FinishedPdu(AbstractFileDirectiveBase):
                     raise ValueError(
                         "Entity ID found in Finished PDU but wrong condition code"
                     )
+                if fault_loc is not None:
+                    raise ValueError("more than one fault location in Finished PDU")
                 fault_loc = EntityIdTlv.unpack(data=rest_of_packet[current_idx:])
                 current_idx += fault_loc.packet_len
             else:
